@@ -56,6 +56,20 @@ CLAIMED = {
              "spaces, 'defer') are outside the quantifier.",
         technique="Lean 4 proof (kernel-decided 30-cell table + ordered-field algebra, nlinarith) + differential correspondence + independent section-8.2 oracle",
         ref="DESIGN.md §4 C11"),
+    "C02": dict(
+        text="Lean 4 theorems over an arbitrary field: (X*M).point(t) = M(X.point(t)) for every move/line/close/quadratic/cubic, every "
+             "matrix and t, lifted to paths of any length (List.map induction) and composition (X*A)*B = X*(A*B); for arcs, the ellipse "
+             "denotation centre + (prx-c)cos + (pry-c)sin commutes with every affine matrix, the re-orthogonalisation step of "
+             "Arc.__imul__ keeps the same point set (parameter shift), yields perpendicular semi-diameters under the code's half-angle "
+             "condition, preserves/multiplies orientation by det M, and the library's evaluator equals the denotation exactly when the "
+             "stored semi-diameters are perpendicular (with a proved counter-example otherwise). Tied to the code by differential "
+             "execution of the Float-instantiated model (seg.points, seg.mulpoints) on generated segments x matrices; the commutation "
+             "relation is evaluated on the implementation for segments, paths (constructor/+/extend/append, copy and in-place routes) "
+             "and all seven shapes.",
+        note="Partial: the trigonometric inversion t_at_point(point_at_t(t)) (KL) is validated by correspondence, not proved; IEEE "
+             "rounding and libm. Known finding C02-roundshape-segments (Circle/Ellipse .segments() under non-orthogonal images).",
+        technique="Lean 4 proof (ring / linear_combination over a field, list induction) + differential correspondence + relation oracle on the implementation",
+        ref="DESIGN.md §4 C02"),
 }
 ALL = ["C%02d" % i for i in range(1, 21)]
 
